@@ -8,6 +8,7 @@ mod driver;
 mod c15;
 mod c19;
 mod case;
+mod diag;
 mod dispatch;
 mod gen;
 mod history;
